@@ -106,6 +106,7 @@ class Cfg:
         self.ansi_ctor = True
         self.far = True
         self.rich = False         # bias towards position-dependent formatting
+        self.alphabet = None      # restrict base-text alphabet
         self.__dict__.update(kw)
 
 
@@ -140,7 +141,7 @@ def ctor(cfg):
     @st.composite
     def c(draw):
         n = draw(text_len(cfg))
-        t = draw(texts(n, n, esc=cfg.esc, nonascii=cfg.nonascii))
+        t = draw(texts(n, n, esc=cfg.esc, nonascii=cfg.nonascii, alphabet=cfg.alphabet))
         kinds = ['ranges'] * 6 + ['fmt'] if cfg.rich else ['plain', 'fmt', 'ranges', 'ranges', 'ranges', 'ranges']
         kind = draw(st.sampled_from(kinds + (['ansi'] if cfg.ansi_ctor else [])))
         if kind == 'plain':
